@@ -16,7 +16,7 @@ RULE = ("(a) in-memory reader histories (per-record Site values: Standard counts
         "t_j = 0, m_j = 0 - compared with the exact model within 1e-9; (b) random call sets through `sfs create "
         "--project-shape/-p --precision p`: every printed value within 0.5*10^-p + 1e-9*records of the model, exit "
         "status, summary; cohorts of 100-300 samples; -p i vs --project-shape 2i+1 must print identical bytes; builder "
-        "errors (dimension mismatch, too large, zero). non-trivial = at least one Projected site; cohorts of 520-640 samples include monomorphic, singleton, nearly fixed and fixed sites (boundary terms of the log-space kernel)")
+        "errors (dimension mismatch, too large, zero). non-trivial = at least one Projected site; cohorts of 520-640 samples include monomorphic, singleton, nearly fixed and fixed sites (boundary terms of the log-space kernel); weights below 2^-52 (28-30 samples projected to half, three populations) compared relatively (1e-9)")
 
 
 def scale_of(case):
@@ -55,6 +55,39 @@ def check(rep, tier, seed):
     compare_cases(rep, "sites-projected", small_cases(rng, tier), tol=TOL, scale_fn=scale_of,
                   nontrivial=lambda c, m: " P" in m, classify=lambda c, m, i: "create-project:site-reader", spec=True,
                   both_builds=(tier == "thorough"))
+    # weights far below f64::EPSILON (balanced sites of 28-30 samples projected to half, several populations whose tail
+    # probabilities multiply) are still the hypergeometric products: compared RELATIVELY, entry by entry (1e-9)
+    from common import run_impl, parse_value
+    tiny = []
+    c30 = ["s%d" % i for i in range(30)]
+    for a_hom in (14, 13, 15):
+        rec = ["./."] * 2 + ["1/1"] * a_hom + ["0/0"] * (28 - a_hom)
+        tiny.append("sites %s %s s:29 %s" % (",".join(c30), model_samples([(c, "A") for c in c30]), model_records([rec, ["0/1"] * 30])))
+    sm3 = [(c, "ABC"[i // 10]) for i, c in enumerate(c30)]
+    tiny.append("sites %s %s i:5,5,5 %s" % (",".join(c30), model_samples(sm3), model_records([(["1/1"] * 5 + ["0/0"] * 5) * 3, ["0/1"] * 30])))
+    tiny.append("sites %s %s s:9,11,13 %s" % (",".join(c30), model_samples(sm3), model_records([(["1/1"] * 5 + ["0/0"] * 5) * 3])))
+    tm, ti = run_model(tiny), run_impl(tiny)
+    for c, m, i in zip(tiny, tm, ti):
+        mt, it_ = m.split(), i.split()
+        okk = len(mt) == len(it_) and len(mt) >= 2
+        nz = 0
+        if okk:
+            for x, y in zip(mt, it_):
+                if x[:1] == "P" and y[:1] == "P":
+                    xs, ys = x[1:].split(","), y[1:].split(",")
+                    okk = okk and len(xs) == len(ys)
+                    for u, v in zip(xs, ys):
+                        pu, pv = parse_value(u), parse_value(v)
+                        if isinstance(pu, str) or isinstance(pv, str) or pu is None or pv is None or abs(pu - pv) > abs(pu) * Fraction(1, 10**9):
+                            okk = False
+                        elif 0 < pu < Fraction(1, 2**52):
+                            nz += 1
+                elif x != y:
+                    okk = False
+        rep.count("sites-tiny-weights", c[:200], nz > 0)
+        if not okk:
+            rep.fail(kind="model-impl-disagreement", cls="create-project:site-reader", case=c, expected=m[:2000], observed=i[:2000],
+                     detail="projected weights differ from the exact hypergeometric products by more than 1e-9 RELATIVE (weights below 2^-52 included)", failing_input=True)
     jobs, mcases, precs = [], [], []
     for k in range(150 if tier == "quick" else 1500):
         big = (k % 50 == 0)
